@@ -112,6 +112,11 @@ func RandTree(r *core.Rand, depth, fan int) wire.Node {
 }
 
 // ToValue converts a tree into the library's generic value type.
+var (
+	zoneEast = time.FixedZone("east", 5*3600+1800)
+	zoneWest = time.FixedZone("west", -11*3600)
+)
+
 func ToValue(n wire.Node) ttlv.Value {
 	v := ttlv.Value{Tag: n.Tag}
 	switch n.Type {
@@ -133,7 +138,15 @@ func ToValue(n wire.Node) ttlv.Value {
 			v.Value = []byte(nil) // an empty byte string held as a nil slice is still an empty byte string
 		}
 	case wire.DateTime:
-		v.Value = time.Unix(n.Int, 0)
+		// the same instant, held in different locations
+		switch uint64(n.Int) % 3 {
+		case 0:
+			v.Value = time.Unix(n.Int, 0).UTC()
+		case 1:
+			v.Value = time.Unix(n.Int, 0).In(zoneEast)
+		default:
+			v.Value = time.Unix(n.Int, 0).In(zoneWest)
+		}
 	case wire.Interval:
 		v.Value = time.Duration(n.Int) * time.Second
 	case wire.Structure:
